@@ -161,6 +161,8 @@ func Compile(input string, ops ...Option) (*vm.Program, error) {
 		if err != nil {
 			return nil, err
 		}
+		// Visitors may have introduced operators that are now typed as overloaded.
+		compiler.PatchOperators(&tree.Node, config)
 	}
 
 	if config.Optimize {
